@@ -7,6 +7,7 @@ TODO: Handle sys.argv
 
 import ast
 import sys
+import time
 import io
 import types
 from itertools import zip_longest
@@ -564,13 +565,14 @@ class Sandbox:
             self._current_stdout.append(mocked.CapturedOutput())
         else:
             self._current_stdout.append(PrintingStringIO())
-        # And do the patches. The module table goes last: starting the other two
-        # looks up `sys` and `time`, which the instructor may have blocked for
-        # the student's code.
+        # And do the patches, on the module objects themselves: looking `sys`
+        # and `time` up by name goes through the module table, where the
+        # instructor may have blocked them for the student's code (and in a
+        # nested execution that table is already the student's).
         self._start_patches(
-            patch('sys.stdout', self._current_stdout[-1]),
-            patch('time.sleep', return_value=None),
-            patch.dict('sys.modules', overridden_modules),
+            patch.object(sys, 'stdout', self._current_stdout[-1]),
+            patch.object(time, 'sleep', return_value=None),
+            patch.dict(sys.modules, overridden_modules),
         )
 
     def _stop_mocking(self, context: SandboxContext):
